@@ -444,15 +444,36 @@ func RegisterReplay(kind string, fn func(raw json.RawMessage) string) {
 	replayers[kind] = fn
 }
 
-// Replay re-runs the case stored in $VERIF_REPLAY.
+// Replay re-runs the case stored in $VERIF_REPLAY; when that is a directory
+// (the committed regression corpus regress/<ID>/), every *.json file in it.
 func Replay(t *testing.T) {
 	p := os.Getenv("VERIF_REPLAY")
 	if p == "" {
 		t.Skip("VERIF_REPLAY not set")
 	}
+	if st, err := os.Stat(p); err == nil && st.IsDir() {
+		files, _ := filepath.Glob(filepath.Join(p, "*.json"))
+		sort.Strings(files)
+		failed := 0
+		for _, f := range files {
+			if !replayOne(t, f, false) {
+				failed++
+			}
+		}
+		if failed > 0 {
+			t.Fatalf("%d of %d regression cases violate the property", failed, len(files))
+		}
+		return
+	}
+	replayOne(t, p, true)
+}
+
+// replayOne returns false when the case violates the property.
+func replayOne(t *testing.T, p string, fatal bool) bool {
 	b, err := os.ReadFile(p)
 	if err != nil {
-		t.Skipf("cannot read replay file: %v", err)
+		t.Logf("cannot read replay file %s: %v", p, err)
+		return true
 	}
 	var doc struct {
 		Property string          `json:"property"`
@@ -460,11 +481,13 @@ func Replay(t *testing.T) {
 		Case     json.RawMessage `json:"case"`
 	}
 	if err := json.Unmarshal(b, &doc); err != nil {
-		t.Skipf("bad replay file: %v", err)
+		t.Logf("bad replay file %s: %v", p, err)
+		return true
 	}
 	fn, ok := replayers[doc.Kind]
 	if !ok {
-		t.Skipf("no replayer for kind %q in this package", doc.Kind)
+		t.Logf("no replayer for kind %q in this package (%s)", doc.Kind, p)
+		return true
 	}
 	r := Get(doc.Property)
 	if cp := crumbPath(); cp != "" {
@@ -476,11 +499,16 @@ func Replay(t *testing.T) {
 		r.mu.Lock()
 		r.violations = append(r.violations, violation{Kind: doc.Kind, Message: trunc(msg, 2000), Replay: p})
 		r.mu.Unlock()
-		t.Fatalf("VIOLATION %s replay=%s: %s", doc.Property, p, msg)
+		if fatal {
+			t.Fatalf("VIOLATION %s replay=%s: %s", doc.Property, p, msg)
+		}
+		t.Errorf("VIOLATION %s replay=%s: %s", doc.Property, p, trunc(msg, 600))
+		return false
 	}
 	r.mu.Lock()
 	r.evals++
 	r.mu.Unlock()
+	return true
 }
 
 // ---- known findings ----------------------------------------------------------
